@@ -54,6 +54,8 @@ CODEC_CLASSES = [
     ('BaseSolve', O + 'solves.py', 'BaseSolve', ['to_dict', 'from_dict']),
     ('MarginalRayHeightSolve', O + 'solves.py', 'MarginalRayHeightSolve', ['to_dict', 'from_dict', '__init__']),
     ('SolveManager', O + 'solves.py', 'SolveManager', ['to_dict', 'from_dict', '__init__']),
+    ('FileIO', O + 'fileio/optiland_handler.py', None,
+     ['load_obj_from_json', 'save_obj_to_json', 'load_optiland_file', 'save_optiland_file']),
 ]
 
 CODEC_KERNELS = ['codec_' + c[0] for c in CODEC_CLASSES]
